@@ -25,7 +25,7 @@ printf '[net]\noffline = true\n' > "$MH/.cargo/config.toml"
 ln -s /verif/assets "$VD/assets"; cp /verif/known_findings.json "$VD/"; ln -s /verif/corpus "$VD/corpus" 2>/dev/null
 RC=0
 for id in "$@"; do
-    VERIF_DIR="$VD" RV_REPO_DIR="$WT" "$MH/target/release/rvcheck" "$id" "$TIER" 2>&1 | grep -E "VIOLATION|KNOWN-FINDING|key=|evaluations=|panic|error" | head -8
+    VERIF_DIR="$VD" VERIF_REPO_DIR="$WT" RV_REPO_BIN_TARGET="$MH/repo-bin" "$MH/target/release/rvcheck" "$id" "$TIER" 2>&1 | grep -E "VIOLATION|KNOWN-FINDING|key=|evaluations=|panic|error" | head -8
     rc=${PIPESTATUS[0]}
     echo "== $id exit=$rc"
     [ "$rc" != 0 ] && RC=1
